@@ -12,19 +12,27 @@
 //!     either ConsDir flag; Peering flag set/unset on peer pieces; SegID = the value that verifies
 //!     the first traversed hop without an ingress update, the value that verifies it after a
 //!     non-cons-dir ingress update, or a foreign value.
-//!   * level 1: every 1-piece packet; level 2: every ordered pair of pieces (or, on topologies
-//!     with more than `PAIR_FULL_LIMIT` pieces, every pair whose first piece some router carried to
-//!     its last hop field); level 3: every (a,b,c) whose prefix (a,b) some router carried to b's
-//!     last hop field (a router never looks beyond the hop field after the current one, so the
-//!     pruned packets behave like their prefix until they die).
-//!   * injected at every hop-field position h at the AS owning hop h with ingress 0 and with every
-//!     external interface of that AS, and with h = 0 at every other AS with ingress 0 (level 3:
-//!     positions 0, last hop of b, first hop of c); clock = after every segment timestamp; links up.
-//!   * every packet R-router delivers end to end ("valid") additionally: clock in
-//!     {ts-1, ts, exp-1, exp, exp+1} x link states {all up, each single link down, all subsets when
-//!     the topology has <= 4 links}; and every single-field corruption of every on-path state of it
-//!     (hop flags/exp/ingress/egress/MAC, info flags/rsv/SegID/timestamp, CurrINF, CurrHF, SegLens,
-//!     meta RSV, DstIA, SrcIA) x the five clocks (links up) and x each single link down (clock ts).
+//!   * level 1: every 1-piece packet, injected at every hop-field position h at the AS owning hop h
+//!     with ingress 0 and with every external interface of that AS, and with h = 0 at every other AS
+//!     with ingress 0.
+//!   * level 2: every ordered pair of pieces (a,b) (on topologies with more than `PAIR_FULL_LIMIT`
+//!     pieces: every pair whose first piece some router carried to its last hop field; a non-peering
+//!     one-hop first piece is left to level 1: the simulator drops it whatever follows), injected at
+//!     the join (a's last hop field) at its AS with ingress 0 and every interface, and at the natural
+//!     start (position 0, first AS, ingress 0). Positions inside b are level-1 states of b.
+//!   * level 3: every (a,b,c) whose prefix (a,b) some router carried, from an injection inside a, to
+//!     b's last hop field, injected at those same points (a router never looks beyond the hop field
+//!     after the current one, so the pruned packets behave like their prefix until they die).
+//!   * clock = after every segment timestamp; all links up.
+//!   * every packet R-router delivers end to end from its natural start ("valid") additionally:
+//!     clock in {ts-1, ts, exp-1, exp, exp+1} x link states {all up, each single link down, all
+//!     subsets when the topology has <= 4 links}; and every single-field corruption of every on-path
+//!     state of it (hop flags/exp/ingress/egress/MAC, info flags/rsv/SegID/timestamp, CurrINF,
+//!     CurrHF, SegLens, meta RSV, DstIA, SrcIA) at clock ts and clock exp+1 (thorough: all five
+//!     clocks, and clock ts x each single link down).
+//! Violation classes: a disagreement is named after the smallest set of named deviations
+//! (`vpc::refrouter::Quirks`) under which the reference reproduces the simulator on that state, plus
+//! the kind of effect; a disagreement no deviation set explains is `unexplained:...`.
 //! Oracles: see `compare` in bridge.rs (per step: next AS, interface and bytes; verdict class) and
 //! `safety` below (reference-independent).
 use std::{
@@ -38,7 +46,7 @@ use vpc::{
     Value, json,
     refrouter::{self, Event, RejectClass, Step, Verdict},
     refseg::{self, RSegment},
-    reftopo::{AsIdx, NeighbourRole, Topo},
+    reftopo::{AsIdx, Topo},
     reftopo_enum,
     refwire::{self, RHeader, RHop, RInfo, RPath, RStdPath},
 };
@@ -47,6 +55,7 @@ use crate::bridge::{self, Agreement, SimVerdict};
 
 pub const BASE_TS: u32 = 1_700_000_000;
 const PAIR_FULL_LIMIT: usize = 400;
+const N4_PIECE_CAP: usize = 1000;
 const CLOCK_NAMES: [&str; 5] = ["ts-1", "ts", "exp-1", "exp", "exp+1"];
 
 // ------------------------------------------------------------------------------------------
@@ -204,10 +213,11 @@ impl std::hash::Hasher for IdHasher {
 pub type StateSet = HashSet<u64, std::hash::BuildHasherDefault<IdHasher>>;
 
 /// Names of the fast outcome counters (index = position).
-const FAST: [&str; 40] = [
+const FAST: [&str; 43] = [
     "ref:delivered", "ref:forward", "ref:expired", "ref:bad-mac", "ref:bad-ingress", "ref:bad-egress", "ref:bad-segment-change", "ref:bad-link-pair", "ref:link-down", "ref:non-local-delivery", "ref:alert-ingress", "ref:alert-egress", "ref:drop",
     "sim:forward", "sim:delivered", "sim:alert-ingress", "sim:alert-egress", "sim:drop", "sim:scmp-param-erroneous-header-field", "sim:scmp-param-non-local-delivery", "sim:scmp-param-invalid-path", "sim:scmp-param-unknown-hop-cons-ingress-if", "sim:scmp-param-unknown-hop-cons-egress-if", "sim:scmp-param-invalid-hop-mac", "sim:scmp-param-path-expired", "sim:scmp-param-invalid-segment-change", "sim:scmp-param-other", "sim:scmp-external-interface-down", "sim:other-scmp", "sim:forward-external", "sim:parse-reject", "sim:iter-error", "sim:panic",
     "cmp:same", "cmp:allowed:two-faults-coexist", "cmp:allowed:future-timestamp", "cmp:allowed:one-hop-segment", "cmp:allowed:router-alert-on-segment-change", "cmp:allowed:other", "cmp:diverge",
+    "obs:scmp-error-quotes-packet-as-received", "obs:scmp-error-quotes-packet-with-advanced-pointer", "obs:scmp-error-quotes-packet-with-updated-segid-or-flags",
 ];
 fn ref_idx(v: &Verdict) -> usize {
     match v {
@@ -256,7 +266,7 @@ fn sim_idx(v: &SimVerdict) -> usize {
 }
 
 pub struct Loc {
-    pub fast: [u64; 40],
+    pub fast: [u64; 43],
     pub outcomes: BTreeMap<String, u64>,
     pub transitions: u64,
     pub walks: u64,
@@ -264,7 +274,7 @@ pub struct Loc {
 }
 impl Default for Loc {
     fn default() -> Self {
-        Loc { fast: [0; 40], outcomes: BTreeMap::new(), transitions: 0, walks: 0, states: StateSet::default() }
+        Loc { fast: [0; 43], outcomes: BTreeMap::new(), transitions: 0, walks: 0, states: StateSet::default() }
     }
 }
 impl Loc {
@@ -275,7 +285,7 @@ impl Loc {
         for (k, v) in o.outcomes {
             *self.outcomes.entry(k).or_default() += v;
         }
-        for i in 0..40 {
+        for i in 0..43 {
             self.fast[i] += o.fast[i];
         }
         self.transitions += o.transitions;
@@ -288,7 +298,7 @@ impl Loc {
     }
     pub fn all_outcomes(&self) -> BTreeMap<String, u64> {
         let mut m = self.outcomes.clone();
-        for i in 0..40 {
+        for i in 0..43 {
             if self.fast[i] > 0 {
                 *m.entry(FAST[i].to_string()).or_default() += self.fast[i];
             }
@@ -297,7 +307,39 @@ impl Loc {
     }
 }
 
+/// Best (smallest) witness per violation class, reported to `Run` once at the end.
+#[derive(Default)]
+pub struct Findings(Mutex<BTreeMap<String, (usize, u64, String, Value)>>);
+impl Findings {
+    /// `metric`: smaller = better witness. The witness is only built when it would be kept.
+    pub fn report(&self, class: &str, metric: usize, what: &dyn Fn() -> String, witness: &dyn Fn() -> Value) {
+        let mut m = self.0.lock().unwrap();
+        match m.get_mut(class) {
+            Some(e) => {
+                e.1 += 1;
+                if metric < e.0 {
+                    e.0 = metric;
+                    e.2 = what();
+                    e.3 = witness();
+                }
+            }
+            None => {
+                m.insert(class.to_string(), (metric, 1, what(), witness()));
+            }
+        }
+    }
+    pub fn flush(&self, run: &vpc::Run) {
+        for (class, (_, n, what, w)) in self.0.lock().unwrap().iter() {
+            run.violation(class, &format!("{what} [{n} occurrences in this run; smallest witness kept]"), w.clone());
+        }
+    }
+    pub fn len(&self) -> usize {
+        self.0.lock().unwrap().len()
+    }
+}
+
 pub struct Env<'a> {
+    pub findings: &'a Findings,
     pub run: &'a vpc::Run,
     pub t: &'a Topo,
     pub real: &'a ScionTopology,
@@ -360,7 +402,32 @@ fn classify(env: &Env, at: AsIdx, ingress: u16, bytes: &[u8], r: &Step, sim: &Si
     let down = env.down;
     let link_down = |li: usize| down[li];
     let egress_hint = egress_of(bytes, r);
-    let mut masks: Vec<u32> = (1u32..128).collect();
+    // only deviations that can change anything on this state need to be tried
+    let mut relevant = 0u32;
+    if let Some(p) = parse_path(bytes) {
+        let (ch, ci) = (p.curr_hf as usize, p.curr_inf as usize);
+        if ch < p.hops.len() && p.seg_of(ch) == Some(ci) {
+            let seg_end = ch + 1 < p.hops.len() && p.seg_of(ch + 1) != Some(ci);
+            let cons = p.infos[ci].cons_dir();
+            let t_in = if cons { p.hops[ch].cons_ingress } else { p.hops[ch].cons_egress };
+            if seg_end {
+                relevant |= 1 | 2 | 8;
+            }
+            if ingress != 0 && t_in == 0 {
+                relevant |= 4;
+            }
+            if p.infos[ci].peering() {
+                relevant |= 16;
+            }
+            if p.seg_range(ci).len() == 1 {
+                relevant |= 32;
+            }
+            if !seg_end && ingress != 0 {
+                relevant |= 64;
+            }
+        }
+    }
+    let mut masks: Vec<u32> = (1u32..128).filter(|m| m & !relevant == 0).collect();
     masks.sort_by_key(|m| (m.count_ones(), *m));
     for m in masks {
         let q = refrouter::Quirks::from_mask(m);
@@ -385,11 +452,13 @@ pub fn walk(env: &Env, loc: &mut Loc, start: AsIdx, ingress: u16, pkt: &[u8], or
     let down = env.down;
     let link_down = |li: usize| down[li];
     let mut step_no = 0usize;
+    // the reference has forwarded the packet at every step so far
+    let mut r_alive = true;
     // a packet can be handled at most once per hop field; +2 lets an over-long walk show itself
     let bound = total_hops.max(1) + 2;
     loop {
         if step_no > total_hops.max(1) {
-            env.run.violation("safety:walk-longer-than-hop-field-count", &format!("{step_no} AS steps on a path of {total_hops} hop fields"), witness(env, start, ingress, pkt, step_no, at, ing, &bytes, None, None, origin));
+            env.findings.report("safety:walk-longer-than-hop-field-count", metric(env, pkt), &|| format!("{step_no} AS steps on a path of {total_hops} hop fields"), &|| witness(env, start, ingress, pkt, step_no, at, ing, &bytes, None, None, origin));
         }
         if step_no >= bound {
             break;
@@ -398,7 +467,7 @@ pub fn walk(env: &Env, loc: &mut Loc, start: AsIdx, ingress: u16, pkt: &[u8], or
         if step_no > 0 && bytes.len() > PATH_OFF && (bytes[PATH_OFF] & 63) as usize + 1 == total_hops {
             out.reached_last_hop = true;
         }
-        if want_states {
+        if want_states && r_alive {
             out.r_states.push((at, ing, bytes.clone()));
         }
         // --- the two routers on the same state
@@ -437,7 +506,7 @@ pub fn walk(env: &Env, loc: &mut Loc, start: AsIdx, ingress: u16, pkt: &[u8], or
                     println!("    DIVERGENCE class={class}");
                 }
                 loc.bump(format!("diverge:{class}"));
-                env.run.violation(&class, &format!("simulator and reference router disagree at AS{at} ({}) ingress {ing}: {why}", ia_str(env.t, at)), witness(env, start, ingress, pkt, step_no, at, ing, &bytes, Some(&r), Some(&sim), origin));
+                env.findings.report(&class, metric(env, pkt), &|| format!("simulator and reference router disagree at AS{at} ({}) ingress {ing}: {why}", ia_str(env.t, at)), &|| witness(env, start, ingress, pkt, step_no, at, ing, &bytes, Some(&r), Some(&sim), origin));
             }
         }
         // --- successor
@@ -450,7 +519,10 @@ pub fn walk(env: &Env, loc: &mut Loc, start: AsIdx, ingress: u16, pkt: &[u8], or
             }
             (rv, SimVerdict::Forward { next_ia, next_if, .. }) => {
                 // only the simulator forwards: follow it to see how far the packet gets
-                out.r_final = rv.class_name();
+                if r_alive {
+                    out.r_final = rv.class_name();
+                }
+                r_alive = false;
                 match env.t.as_by_ia(*next_ia) {
                     Some(n) => {
                         at = n;
@@ -461,9 +533,11 @@ pub fn walk(env: &Env, loc: &mut Loc, start: AsIdx, ingress: u16, pkt: &[u8], or
                 }
             }
             (rv, _) => {
-                out.r_final = rv.class_name();
-                if let Verdict::Delivered { at, .. } = rv {
-                    out.r_delivered_at = Some(*at);
+                if r_alive {
+                    out.r_final = rv.class_name();
+                    if let Verdict::Delivered { at, .. } = rv {
+                        out.r_delivered_at = Some(*at);
+                    }
                 }
                 break;
             }
@@ -486,6 +560,10 @@ fn egress_of(bytes: &[u8], r: &Step) -> Option<u16> {
     Some(if inf.cons_dir() { hop.cons_egress } else { hop.cons_ingress })
 }
 
+/// Witness size: topology size first, then packet length.
+fn metric(env: &Env, pkt: &[u8]) -> usize {
+    (env.t.ases.len() * 100 + env.t.links.len()) * 10_000 + pkt.len()
+}
 fn ia_str(t: &Topo, a: AsIdx) -> String {
     let n = &t.ases[a];
     format!("{}-{:x}:{:x}:{:x}{}", n.isd, (n.asn >> 32) & 0xffff, (n.asn >> 16) & 0xffff, n.asn & 0xffff, if n.core { " core" } else { "" })
@@ -527,26 +605,26 @@ fn safety(env: &Env, loc: &mut Loc, at: AsIdx, ing: u16, bytes: &[u8], sim: &Sim
             let here = env.t.ases[at].ia();
             let dst_now = if bytes.len() >= 20 { Some(u64::from_be_bytes(bytes[12..20].try_into().unwrap())) } else { None };
             if dst_now != Some(here) {
-                env.run.violation("safety:delivered-outside-destination-as", &format!("simulator delivers locally at AS{at} but DstIA is {:x?}", dst_now), witness(env, start, ingress, pkt, step_no, at, ing, bytes, None, Some(sim), origin));
+                env.findings.report("safety:delivered-outside-destination-as", metric(env, pkt), &|| format!("simulator delivers locally at AS{at} but DstIA is {:x?}", dst_now), &|| witness(env, start, ingress, pkt, step_no, at, ing, bytes, None, Some(sim), origin));
             }
         }
         SimVerdict::Forward { egress_if, next_ia, next_if } => match env.t.neighbour(at, *egress_if) {
-            None => env.run.violation("safety:forward-over-nonexistent-interface", &format!("simulator forwards over interface {egress_if} which AS{at} does not have"), witness(env, start, ingress, pkt, step_no, at, ing, bytes, None, Some(sim), origin)),
+            None => env.findings.report("safety:forward-over-nonexistent-interface", metric(env, pkt), &|| format!("simulator forwards over interface {egress_if} which AS{at} does not have"), &|| witness(env, start, ingress, pkt, step_no, at, ing, bytes, None, Some(sim), origin)),
             Some((n, nif, _, li)) => {
                 if env.down[li] {
-                    env.run.violation("safety:forward-over-down-link", &format!("simulator forwards over link {li} which is down"), witness(env, start, ingress, pkt, step_no, at, ing, bytes, None, Some(sim), origin));
+                    env.findings.report("safety:forward-over-down-link", metric(env, pkt), &|| format!("simulator forwards over link {li} which is down"), &|| witness(env, start, ingress, pkt, step_no, at, ing, bytes, None, Some(sim), origin));
                 }
                 if env.t.ases[n].ia() != *next_ia || nif != *next_if {
-                    env.run.violation("safety:forward-arrives-at-wrong-neighbour", "next (AS, interface) is not the other end of the egress link", witness(env, start, ingress, pkt, step_no, at, ing, bytes, None, Some(sim), origin));
+                    env.findings.report("safety:forward-arrives-at-wrong-neighbour", metric(env, pkt), &|| "next (AS, interface) is not the other end of the egress link".to_string(), &|| witness(env, start, ingress, pkt, step_no, at, ing, bytes, None, Some(sim), origin));
                 }
             }
         },
         SimVerdict::Panic(m) => {
             let class = format!("panic@{}", m.rsplit(" @ ").next().unwrap_or("?"));
-            env.run.violation(&class, &format!("the simulator step panicked: {m}"), witness(env, start, ingress, pkt, step_no, at, ing, bytes, None, Some(sim), origin));
+            env.findings.report(&class, metric(env, pkt), &|| format!("the simulator step panicked: {m}"), &|| witness(env, start, ingress, pkt, step_no, at, ing, bytes, None, Some(sim), origin));
         }
         SimVerdict::IterError(e) => {
-            env.run.violation("simulator-internal-error", &format!("ScionNetworkSim step returned an error instead of a verdict: {e}"), witness(env, start, ingress, pkt, step_no, at, ing, bytes, None, Some(sim), origin));
+            env.findings.report("simulator-internal-error", metric(env, pkt), &|| format!("ScionNetworkSim step returned an error instead of a verdict: {e}"), &|| witness(env, start, ingress, pkt, step_no, at, ing, bytes, None, Some(sim), origin));
         }
         _ => {}
     }
@@ -554,10 +632,10 @@ fn safety(env: &Env, loc: &mut Loc, at: AsIdx, ing: u16, bytes: &[u8], sim: &Sim
     if let Some(q) = sim.quoted() {
         let n = q.len().min(bytes.len());
         if q[..n] == bytes[..n] {
-            loc.bump("obs:scmp-error-quotes-packet-as-received".into());
+            loc.fast[40] += 1;
         } else {
             let ptr_moved = q.len() > PATH_OFF && q[PATH_OFF] != bytes[PATH_OFF];
-            loc.bump(if ptr_moved { "obs:scmp-error-quotes-packet-with-advanced-pointer".into() } else { "obs:scmp-error-quotes-packet-with-updated-segid-or-flags".into() });
+            loc.fast[if ptr_moved { 41 } else { 42 }] += 1;
         }
     }
 }
@@ -725,17 +803,22 @@ fn make(t: &Topo, ps: &[&Piece]) -> Made {
     Made { bytes, owners, seg_start }
 }
 
-/// Walk one made packet from all its injection points; returns (reached last hop anywhere, valid).
-fn explore_packet(env: &Env, loc: &mut Loc, m: &Made, positions: &[usize], origin: &dyn Fn() -> Value, valid_out: &mut Vec<(Vec<u8>, AsIdx, WalkOut)>) -> bool {
-    let mut reached = false;
+type Inj = (usize, AsIdx, u16);
+
+/// Walk one made packet from the given injection points; returns the injection points from which
+/// some router carried the packet (by forwarding) to its last hop field.
+fn explore_packet(env: &Env, loc: &mut Loc, m: &Made, inj: &[Inj], origin: &dyn Fn() -> Value, valid_out: &mut Vec<(Vec<u8>, AsIdx, WalkOut)>) -> Vec<Inj> {
+    let mut reached = vec![];
     let seg_of = |h: usize| m.seg_start.iter().rposition(|s| *s <= h).unwrap_or(0);
-    for (h, a, ifid) in injections(env.t, &m.owners, positions) {
+    for &(h, a, ifid) in inj {
         let mut b = m.bytes.clone();
         set_pointer(&mut b, seg_of(h) as u8, h as u8);
         let natural = h == 0 && ifid == 0 && a == m.owners[0];
         let o = || json!({"made_from": origin(), "pointer": h});
         let w = walk(env, loc, a, ifid, &b, &o, false);
-        reached |= w.reached_last_hop;
+        if w.reached_last_hop {
+            reached.push((h, a, ifid));
+        }
         if natural && w.r_delivered_at.is_some() {
             valid_out.push((b, a, w));
         }
@@ -743,7 +826,7 @@ fn explore_packet(env: &Env, loc: &mut Loc, m: &Made, positions: &[usize], origi
     reached
 }
 
-pub fn explore_topology(run: &vpc::Run, t: &Topo, levels: usize) -> TopoReport {
+pub fn explore_topology(run: &vpc::Run, findings: &Findings, t: &Topo, levels: usize, deep: bool) -> TopoReport {
     let mut rep = TopoReport::default();
     let real = match vpc::catch(|| bridge::build_topology(t)) {
         Ok(Ok(r)) => r,
@@ -762,7 +845,7 @@ pub fn explore_topology(run: &vpc::Run, t: &Topo, levels: usize) -> TopoReport {
     rep.pieces = pieces.len();
     let up = vec![false; t.links.len()];
     let now0 = BASE_TS + 17 * nsegs as u32 + 5;
-    let env = Env { run, t, real: &real, down: &up, now: now0, verbose: false };
+    let env = Env { findings, run, t, real: &real, down: &up, now: now0, verbose: false };
     let valid: Mutex<Vec<(Vec<u8>, AsIdx, WalkOut)>> = Mutex::new(vec![]);
     let total = Mutex::new(Loc::default());
 
@@ -774,10 +857,11 @@ pub fn explore_topology(run: &vpc::Run, t: &Topo, levels: usize) -> TopoReport {
             let mut v = vec![];
             let m = make(t, &[&pieces[a]]);
             let pos: Vec<usize> = (0..m.owners.len()).collect();
-            let reached = explore_packet(&env, &mut loc, &m, &pos, &|| json!([pieces[a].describe()]), &mut v);
+            let reached = explore_packet(&env, &mut loc, &m, &injections(t, &m.owners, &pos), &|| json!([pieces[a].describe()]), &mut v);
             total.lock().unwrap().merge(loc);
             valid.lock().unwrap().extend(v);
-            reached.then_some(a)
+            // a one-hop piece is at its last hop from the start
+            (!reached.is_empty() || m.owners.len() == 1).then_some(a)
         })
         .collect();
     rep.packets[0] = pieces.len() as u64;
@@ -785,10 +869,13 @@ pub fn explore_topology(run: &vpc::Run, t: &Topo, levels: usize) -> TopoReport {
     // ---- level 2
     let full = pieces.len() <= PAIR_FULL_LIMIT;
     rep.pair_mode_full = full;
+    // a non-peering one-hop first segment is dropped by the simulator and left open by the
+    // specification whatever follows it: level 1 covers it
     let firsts: Vec<usize> = if full { (0..pieces.len()).collect() } else { surv1.clone() };
-    let mut surv2: Vec<(usize, usize)> = vec![];
+    let firsts: Vec<usize> = firsts.into_iter().filter(|&a| pieces[a].hops.len() > 1 || pieces[a].flags & 2 != 0).collect();
+    let mut surv2: Vec<(usize, usize, Vec<Inj>)> = vec![];
     if levels >= 2 {
-        let res: Vec<Vec<(usize, usize)>> = firsts
+        let res: Vec<Vec<(usize, usize, Vec<Inj>)>> = firsts
             .par_iter()
             .map(|&a| {
                 let mut loc = Loc::default();
@@ -796,9 +883,16 @@ pub fn explore_topology(run: &vpc::Run, t: &Topo, levels: usize) -> TopoReport {
                 let mut s = vec![];
                 for b in 0..pieces.len() {
                     let m = make(t, &[&pieces[a], &pieces[b]]);
-                    let pos: Vec<usize> = (0..m.owners.len()).collect();
-                    if explore_packet(&env, &mut loc, &m, &pos, &|| json!([pieces[a].describe(), pieces[b].describe()]), &mut v) {
-                        s.push((a, b));
+                    // the join (a's last hop) on every interface of its AS, and the natural start
+                    let join = m.seg_start[1] - 1;
+                    let mut inj = injections(t, &m.owners, &[join]);
+                    if join != 0 {
+                        inj.push((0, m.owners[0], 0));
+                    }
+                    inj.retain(|(h, a0, _)| *h == join && *a0 == m.owners[join] || *h == 0 && *a0 == m.owners[0]);
+                    let reached = explore_packet(&env, &mut loc, &m, &inj, &|| json!([pieces[a].describe(), pieces[b].describe()]), &mut v);
+                    if !reached.is_empty() {
+                        s.push((a, b, reached));
                     }
                 }
                 total.lock().unwrap().merge(loc);
@@ -812,13 +906,13 @@ pub fn explore_topology(run: &vpc::Run, t: &Topo, levels: usize) -> TopoReport {
 
     // ---- level 3
     if levels >= 3 {
-        surv2.par_iter().for_each(|&(a, b)| {
+        surv2.par_iter().for_each(|(a, b, inj)| {
+            let (a, b) = (*a, *b);
             let mut loc = Loc::default();
             let mut v = vec![];
             for c in 0..pieces.len() {
                 let m = make(t, &[&pieces[a], &pieces[b], &pieces[c]]);
-                let pos = [0, m.seg_start[2] - 1, m.seg_start[2]];
-                explore_packet(&env, &mut loc, &m, &pos, &|| json!([pieces[a].describe(), pieces[b].describe(), pieces[c].describe()]), &mut v);
+                explore_packet(&env, &mut loc, &m, inj, &|| json!([pieces[a].describe(), pieces[b].describe(), pieces[c].describe()]), &mut v);
             }
             total.lock().unwrap().merge(loc);
             valid.lock().unwrap().extend(v);
@@ -856,7 +950,7 @@ pub fn explore_topology(run: &vpc::Run, t: &Topo, levels: usize) -> TopoReport {
         let e = e as u32;
         let clocks = [t0 - 1, t0, e - 1, e, e + 1];
         // the reference walk at t0, links up: on-path states
-        let env0 = Env { run, t, real: &real, down: &up, now: t0, verbose: false };
+        let env0 = Env { findings, run, t, real: &real, down: &up, now: t0, verbose: false };
         let w0 = walk(&env0, &mut loc, *src, 0, pkt, &|| json!({"valid_packet": vpc::hex(pkt)}), true);
         // a shortcut = cross-over at a non-core AS
         if w0.saw_xover {
@@ -876,7 +970,7 @@ pub fn explore_topology(run: &vpc::Run, t: &Topo, levels: usize) -> TopoReport {
                 if ci == 1 && li == 0 {
                     continue; // done above
                 }
-                let env = Env { run, t, real: &reals[li], down: d, now, verbose: false };
+                let env = Env { findings, run, t, real: &reals[li], down: d, now, verbose: false };
                 walk(&env, &mut loc, *src, 0, pkt, &|| json!({"valid_packet": vpc::hex(pkt), "clock": CLOCK_NAMES[ci]}), false);
             }
         }
@@ -885,12 +979,19 @@ pub fn explore_topology(run: &vpc::Run, t: &Topo, levels: usize) -> TopoReport {
             for (name, cb) in corruptions(t, bytes) {
                 ncorr += 1;
                 let o = || json!({"valid_packet": vpc::hex(pkt), "on_path_state": k, "corruption": name});
-                for &now in &clocks {
-                    let env = Env { run, t, real: &real, down: &up, now, verbose: false };
+                let cclocks: &[u32] = if deep { &clocks } else { &clocks[1..=1] };
+                for &now in cclocks {
+                    let env = Env { findings, run, t, real: &real, down: &up, now, verbose: false };
                     walk(&env, &mut loc, *a, *ing, &cb, &o, false);
                 }
-                for &li in &single_down {
-                    let env = Env { run, t, real: &reals[li], down: &lsets[li], now: t0, verbose: false };
+                if deep {
+                    for &li in &single_down {
+                        let env = Env { findings, run, t, real: &reals[li], down: &lsets[li], now: t0, verbose: false };
+                        walk(&env, &mut loc, *a, *ing, &cb, &o, false);
+                    }
+                } else {
+                    // one combined fault: the corruption met at the first second after the earliest expiry
+                    let env = Env { findings, run, t, real: &real, down: &up, now: clocks[4], verbose: false };
                     walk(&env, &mut loc, *a, *ing, &cb, &o, false);
                 }
             }
@@ -918,13 +1019,35 @@ pub fn run(args: &vpc::Args) -> ! {
     if let Some(f) = &args.replay {
         replay(args, f);
     }
+    if std::env::var("VP_COUNT").is_ok() {
+        for (n, m) in [(3, 2), (4, 1), (4, 2), (5, 1)] {
+            let ts = reftopo_enum::enumerate(n, m);
+            let mut ps: Vec<usize> = ts.iter().map(|t| pieces_of(&refseg::beacon(t, BASE_TS)).len()).collect();
+            ps.sort();
+            let sq: u128 = ps.iter().map(|p| (*p as u128) * (*p as u128)).sum();
+            println!("n={n} mult<={m}: {} topologies, pieces min/median/max = {}/{}/{}, sum of squares {}", ts.len(), ps[0], ps[ps.len() / 2], ps[ps.len() - 1], sq);
+        }
+        std::process::exit(0);
+    }
     let run = vpc::Run::new(args);
     let thorough = run.tier == vpc::Tier::Thorough;
     let max_n = if thorough { 4 } else { 3 };
     let mut topos: Vec<Topo> = vec![];
-    for n in 1..=max_n {
+    for n in 1..=3 {
         topos.extend(reftopo_enum::enumerate(n, 2));
     }
+    let mut bound_topos = String::from("all R-topo shapes n<=3 with core-link multiplicity<=2");
+    if thorough {
+        // n = 4: every shape with multiplicity 1, and the multiplicity-2 shapes whose authentic
+        // material stays below N4_PIECE_CAP pieces (pairs grow with the square of it)
+        let m1 = reftopo_enum::enumerate(4, 1);
+        let same = |a: &Topo, b: &Topo| a.ases == b.ases && a.links == b.links;
+        let m2: Vec<Topo> = reftopo_enum::enumerate(4, 2).into_par_iter().filter(|t| !m1.iter().any(|x| same(x, t)) && pieces_of(&refseg::beacon(t, BASE_TS)).len() <= N4_PIECE_CAP).collect();
+        bound_topos.push_str(&format!(", all n=4 shapes with multiplicity 1 ({}), the n=4 multiplicity-2 shapes with <= {} pieces ({})", m1.len(), N4_PIECE_CAP, m2.len()));
+        topos.extend(m1);
+        topos.extend(m2);
+    }
+    bound_topos.push_str(", both interface numberings each");
     let enumerated = topos.len();
     if thorough {
         topos.extend(reftopo_enum::curated().into_iter().filter(|t| t.name != "cur-repo-default-graph"));
@@ -935,7 +1058,8 @@ pub fn run(args: &vpc::Args) -> ! {
         topos = reftopo_enum::curated().into_iter().chain((1..=4).flat_map(|n| reftopo_enum::enumerate(n, 2))).filter(|t| t.name.contains(&only)).collect();
     }
     let ntopos = topos.len();
-    let reports: Vec<(String, TopoReport)> = topos.par_iter().map(|t| (t.name.clone(), explore_topology(&run, t, 3))).collect();
+    let findings = Findings::default();
+    let reports: Vec<(String, TopoReport)> = topos.par_iter().map(|t| (t.name.clone(), explore_topology(&run, &findings, t, 3, thorough))).collect();
 
     if std::env::var("VP_DEBUG").is_ok() {
         for (name, r) in &reports {
@@ -968,7 +1092,7 @@ pub fn run(args: &vpc::Args) -> ! {
         if !r.pair_mode_full {
             pruned_pairs.push(name.clone());
         }
-        for (k, v) in &r.loc.outcomes {
+        for (k, v) in &r.loc.all_outcomes() {
             *outcomes.entry(k.clone()).or_default() += v;
         }
     }
@@ -979,28 +1103,30 @@ pub fn run(args: &vpc::Args) -> ! {
     run.outcome_n("walk:valid-shortcut-packets", vs as u64);
     run.outcome_n("walk:valid-peering-packets", vp as u64);
     run.outcome_n("walk:valid-3-segment-packets", v3 as u64);
+    findings.flush(&run);
     if !skipped.is_empty() {
         run.violation("harness:pocketscion-rejects-reference-topology", "ScionTopologyBuilder refused a topology of the enumerator", json!({"skipped": skipped}));
     }
     let vacuous = valid == 0 || vs == 0 || vp == 0 || v3 == 0;
-    if vacuous {
+    if vacuous && std::env::var("VP_ONLY").is_err() {
         vpc::machinery_failure(&format!("vacuous exploration: valid={valid} shortcut={vs} peering={vp} 3-segment={v3}"));
     }
     for (name, r) in reports.iter().take(3) {
         run.sample(3, || json!({"topology": name, "pieces": r.pieces, "packets_per_level": r.packets, "valid": r.valid, "transitions": r.loc.transitions}));
     }
     let bound = format!(
-        "{} topologies (all R-topo shapes n<={} with core-link multiplicity<=2 in both interface numberings = {}, + {} curated); per topology all authentic pieces (runs 1..4, both orders, both ConsDir, peer-hop variants with/without Peering flag, SegID match/match-after-update/foreign); packets: {} 1-piece, {} 2-piece ({}), {} 3-piece (prefix carried to its last hop by some router); injected at every hop position x (owner AS x {{0, every interface}}) + position 0 at every AS; {} valid packets x 5 clocks x link sets (all subsets <=4 links, else singles); {} single-field corruptions of on-path states x (5 clocks + each single link down)",
+        "{} topologies ({} = {}, + {} curated); per topology all authentic pieces (runs 1..4 of every R-seg segment, both orders, both ConsDir, peer-hop variants with/without Peering flag, SegID match / match-after-ingress-update / foreign); packets: {} 1-piece (every position x owner AS x {{0, every interface}}, position 0 at every AS), {} 2-piece ({}; injected at the join x {{0, every interface}} and at the natural start), {} 3-piece (prefix carried to its last hop by some router); clock after all timestamps, links up; {} valid packets x 5 clocks x link sets (all subsets <=4 links, else all-up + singles); {} single-field corruptions of on-path states x ({})",
         ntopos,
-        max_n,
+        bound_topos,
         enumerated,
         ntopos - enumerated,
         pk[0],
         pk[1],
-        if pruned_pairs.is_empty() { "all ordered pairs".to_string() } else { format!("all ordered pairs except on {:?}: first piece carried to its last hop", pruned_pairs) },
+        if pruned_pairs.is_empty() { "all ordered pairs with a first piece of >=2 hops or a peering first piece".to_string() } else { format!("all such ordered pairs, except on {} topologies with >{} pieces: first piece carried to its last hop", pruned_pairs.len(), PAIR_FULL_LIMIT) },
         pk[2],
         valid,
-        corr
+        corr,
+        if thorough { "5 clocks, links up; clock ts x each single link down" } else { "clock ts and clock exp+1, links up" }
     );
     run.finish(
         "model_checking",
@@ -1050,10 +1176,12 @@ fn replay(args: &vpc::Args, f: &std::path::Path) -> ! {
     let a2 = vpc::Args { prop: args.prop.clone(), tier: args.tier, seed: args.seed, replay: None, extra: vec![] };
     unsafe { std::env::set_var("VERIF_ROOT", "/root/scratch/c13-replay-out") };
     let run = vpc::Run::new(&a2);
-    let env = Env { run: &run, t: &t, real: &real, down: &down, now, verbose: true };
+    let findings = Findings::default();
+    let env = Env { findings: &findings, run: &run, t: &t, real: &real, down: &down, now, verbose: true };
     let mut loc = Loc::default();
     let out = walk(&env, &mut loc, start, ingress, &pkt, &|| json!("replay"), false);
-    println!("REPLAY-RESULT steps={} reference-final={} delivered-by-reference={:?} divergences={}", out.steps, out.r_final, out.r_delivered_at, run.violation_count());
+    findings.flush(&run);
+    println!("REPLAY-RESULT steps={} reference-final={} delivered-by-reference={:?} divergence-classes={}", out.steps, out.r_final, out.r_delivered_at, findings.len());
     let _ = std::fs::remove_dir_all("/root/scratch/c13-replay-out");
     std::process::exit(if run.violation_count() > 0 { 1 } else { 0 })
 }
